@@ -228,6 +228,8 @@ def prim_specs(draw, tier):
         "perm": draw(st.booleans()),
         "S": draw(st.lists(st.integers(-2, 3), min_size=9, max_size=9).filter(lambda v: 1 <= det3(np.array(v).reshape(3, 3)) <= 6)),
         "snf": draw(st.booleans()), "dense_svecs": draw(st.booleans()),
+        # a looser distance tolerance together with a supercell of > 1/symprec primitive cells (3x3x3 of a centred cell)
+        "loose": draw(st.sampled_from([0, 0, 0, 0, 1])),
     }
 
 
@@ -320,6 +322,10 @@ def run_primitive(spec):
     else:
         pm = spec["other"] if spec["other"] != cen else ("I" if cen != "I" else "F")
     S = np.array(spec["S"]).reshape(3, 3)
+    kw_sp = {}
+    if spec.get("loose"):
+        S = np.diag([3, 3, 3]) if cen != "P" else np.diag([5, 5, 5])
+        kw_sp = {"symprec": 1e-2}
     labelled_sub = spec["labels"] == "indexed_sublattice" and cen != "P"
     buf = io.StringIO()
     via = "phonopy" if (spec["magmom"] == "none" and spec["key"] % 2 == 0) else "direct"
@@ -327,16 +333,16 @@ def run_primitive(spec):
         with contextlib.redirect_stdout(buf):
             if via == "phonopy":
                 ph = Phonopy(cell, supercell_matrix=S, primitive_matrix=pm, log_level=0, use_SNF_supercell=spec["snf"],
-                             store_dense_svecs=spec["dense_svecs"])
+                             store_dense_svecs=spec["dense_svecs"], **kw_sp)
                 prim, sc = ph.primitive, ph.supercell
             else:
                 # the cell-construction layer itself (no symmetry search of the whole crystal)
                 from phonopy.structure.cells import get_primitive, get_primitive_matrix, get_supercell, guess_primitive_matrix
 
-                sc = get_supercell(cell, S, is_old_style=not spec["snf"])
+                sc = get_supercell(cell, S, is_old_style=not spec["snf"], **kw_sp)
                 P = guess_primitive_matrix(cell) if which == "auto" else get_primitive_matrix(pm)
                 tm = np.linalg.inv(S) if P is None else np.linalg.inv(S) @ P
-                prim = get_primitive(sc, tm, store_dense_svecs=spec["dense_svecs"])
+                prim = get_primitive(sc, tm, store_dense_svecs=spec["dense_svecs"], **kw_sp)
     except Exception as e:
         valid_request = (which == "none") or (which == "auto" and not labelled_sub) or \
             (which in ("right", "explicit") and not labelled_sub)
@@ -468,7 +474,7 @@ def run_primitive(spec):
                    % (cen, pm if not isinstance(pm, np.ndarray) else "explicit", spec["labels"], S.tolist(), spec["snf"], "; ".join(errs)))
     nontriv = cen != "P" or bool(np.any(S - np.diag(np.diag(S))))
     return Out(ok=True, nontrivial=nontriv, classes=["cen:" + cen, "req:" + which, spec["labels"], "N:%d" % min(N, 12),
-                                                     "snf" if spec["snf"] else "classic"] + (["reordered"] if reordered else []))
+                                                     "snf" if spec["snf"] else "classic"] + (["reordered"] if reordered else []) + (["symprec_1e-2_many_cells"] if spec.get("loose") else []))
 
 
 SUBCHECKS = [
